@@ -31,7 +31,7 @@ TEAR_OFFSETS_PER_CHUNK = 150
 FIELDS_PER_CHUNK = 2
 ALL_MASK = 511
 MAX_RERUNS = 16
-SHRINK_BUDGET = 16
+SHRINK_BUDGET = 10
 
 
 def flip_values(orig):
@@ -162,7 +162,7 @@ def a_instr(r, ctx):
 def a_desc(r, depth, parents):
     """random well-typed assembly description with boundary operands"""
     name = "f%d" % depth if r.random() < 0.8 else r.choice(["outer", "x", "f0"])
-    arity = r.choice([0, 0, 1, 2, 3, 3, 255, 2147483647]) if r.random() < 0.1 else r.randrange(4)
+    arity = r.choice([0, 0, 1, 2, 3, 3, 255, 2147483647 if img.HUGE_VALUES else 65536]) if r.random() < 0.1 else r.randrange(4)
     slots = arity % 300 + r.randrange(1, 6)
     ndefs = r.randrange(0, 3) if depth < 2 else 0
     nconst = r.randrange(0, 4)
@@ -317,6 +317,7 @@ def sanitizer_facts(log):
     """-> (class, kind, top function inside src/core, text excerpt)"""
     cls, kind = "asan", "unknown"
     pos = 0
+    overrun = False
     m = ASAN_RE.search(log)
     u = UBSAN_RE.search(log)
     if u and (not m or u.start() < m.start()):
@@ -330,12 +331,16 @@ def sanitizer_facts(log):
         if kind == "requested":
             kind = "allocation-size-too-big"
         acc = re.search(r"^(READ|WRITE) of size", log[pos:], re.M)
-        if acc:
-            kind += "-" + acc.group(1).lower()
-        elif "caused by a READ" in log:
-            kind += "-read"
-        elif "caused by a WRITE" in log:
-            kind += "-write"
+        rw = acc.group(1).lower() if acc else ("read" if "caused by a READ" in log else
+                                               "write" if "caused by a WRITE" in log else "")
+        if kind in ("heap-buffer-overflow", "SEGV", "heap-use-after-free", "unknown-crash", "use-after-poison",
+                    "global-buffer-overflow", "stack-buffer-overflow", "stack-buffer-underflow", "BUS"):
+            # one wild pointer shows up as an overflow, a use after free or a plain fault depending on where it happens
+            # to land; the finer kind stays in the detail
+            overrun = kind == "heap-buffer-overflow"
+            kind = "invalid-" + (rw or "access")
+        elif rw:
+            kind += "-" + rw
         a = ABORT_RE.search(log)
         if kind == "ABRT":
             cls = "abort"
@@ -352,7 +357,7 @@ def sanitizer_facts(log):
     # wrappers).  Only when the access is next to or inside that object: a wild pointer lands near arbitrary objects.
     loc = re.search(r"is located (\d+) bytes (?:to the right of|to the left of|after|before|inside of)", log[pos:])
     a = re.search(r"^(?:previously )?allocated by thread", log[pos:], re.M)
-    if cls == "asan" and kind.startswith("heap-buffer-overflow") and a and loc and int(loc.group(1)) <= 64:
+    if cls == "asan" and overrun and a and loc and int(loc.group(1)) <= 64:
         for g in FRAME_RE.finditer(log, pos + a.start()):
             if g.group(1) not in ALLOC_WRAPPERS:
                 top += "/obj=" + g.group(1)
@@ -659,7 +664,10 @@ class C10(Driver):
             return "(:drop %s %d)" % (path, i if r.random() < 0.5 else 0)
         if u < 0.80:      # top-level keys
             key = r.choice(A_KEYS)
-            return "(:key %s %s %s)" % (path, key, a_val(r))
+            v = a_val(r)
+            if key == ":arity" and not img.HUGE_VALUES and re.fullmatch(r"\d{8,}", v):
+                v = "65536"     # the arity becomes the frame size when the function is called (see c10_image.HUGE_VALUES)
+            return "(:key %s %s %s)" % (path, key, v)
         if u < 0.85:
             return "(:elem %s :constants %d %s)" % (path, i, a_val(r))
         if u < 0.89:
@@ -814,6 +822,11 @@ class C10(Driver):
                 res2 = r.run(self.render(plan, [idx]), 2 * self.timeout_ms if info["phase"] == "L" else 3000)
                 wall += res2.wall_us
                 info2 = read_log(res2.log or "")
+                if res2.outcome == "timeout" and info2["phase"] == "L" and info["phase"] != "L":
+                    # the short limit ran out while the case was still loading: only the generous limit may say "hang"
+                    res2 = r.run(self.render(plan, [idx]), 2 * self.timeout_ms)
+                    wall += res2.wall_us
+                    info2 = read_log(res2.log or "")
                 if res2.outcome == "ok":
                     # slow machine: the case is fine; what was done before it counts, go on after it
                     verdict, v = "slow", None
